@@ -136,7 +136,9 @@ static void prod_case(Out& out, Rng& rng, int kern, int variant, uint64_t ell, i
   const uint64_t xrow = (kern >= K_X2C1) ? 8 : 4;               // lanes per row of x
   const uint64_t yrow = (kern == K_X2C2) ? 16 : xrow;           // lanes per row of y
   const uint64_t nres = (kern == K_X2C1) ? 8 : (kern == K_X2C2 ? 16 : 4);
-  std::vector<uint64_t> x(xrow * ell + 4), y(yrow * ell + 4), res(nres, 0x5A5A5A5A5A5A5A5Aull);
+  // one full row of non-zero garbage behind the operands: a kernel that reads term `ell` shows in the result
+  std::vector<uint64_t> x(xrow * ell + 16), y(yrow * ell + 16), res(nres, 0x5A5A5A5A5A5A5A5Aull);
+  for (uint64_t i = 0; i < 16; i++) { x[xrow * ell + i] = (rng.next() & M32) | 1; y[yrow * ell + i] = (rng.next() & M32) | 1; }
   uint64_t special = rng.below(ell ? ell : 1);
   int xcls = cls, ycls = cls;
   for (uint64_t i = 0; i < ell; i++) {
